@@ -60,10 +60,11 @@ class Agg:
 
 class VecV:
     """Vec<T>, Bytes, BytesMut, VecDeque: list of cells + capacity"""
-    __slots__ = ('items', 'cap')
+    __slots__ = ('items', 'cap', 'base')
 
     def __init__(self, items=None, cap=0):
         self.items = items if items is not None else []; self.cap = cap
+        self.base = None    # optional symbolic count of opaque octets in front of items (length only)
 
     def __repr__(self): return f"Vec{[c.v for c in self.items]}"
 
@@ -248,9 +249,13 @@ class Exec:
         self.env = {}              # harness scratch (clock etc.)
         self.subst = []            # (expr, value) equalities decided by concretize
         self.ite_reads = False
+        self.concrete_inputs = None   # replay mode: sym() returns these values
 
     # ---------------------------------------------------------------- symbols
     def sym(self, name, ty):
+        if self.concrete_inputs is not None:
+            v = self.concrete_inputs.get(name, 0)
+            return bool(v) if ty == 'bool' else Int(int(v), ty)
         if ty == 'bool':
             t = z3.Bool(name); self.inputs.append((name, t)); return t
         t = z3.BitVec(name, INT_W[ty]); self.inputs.append((name, t))
